@@ -80,7 +80,8 @@ Inductive fpc :=
   | FWUnlockF | FWSegF | FWYield
   | FFin | FDone.
 
-Record fthread := { f_pc : fpc; f_k : nat; f_reg : Z; f_reg2 : Z; f_pend : notes }.
+Record fthread := { f_pc : fpc; f_k : nat; f_reg : Z; f_reg2 : Z; f_pend : notes;
+                     f_g : Z  (* GHOST: the unbounded counter value behind the cursor value in f_reg *) }.
 Record fsys := {
   f_n : nat;                  (* threads: tid 0 is the reader, 1 .. n-1 are writers *)
   f_cap : Z;
@@ -88,21 +89,23 @@ Record fsys := {
   f_wcur : Z;
   f_rcur : Z;
   f_wm : option nat;          (* owner of the write mutex *)
+  f_W : Z;                    (* GHOST: number of completed write_cursor stores (messages published) *)
+  f_R : Z;                    (* GHOST: number of completed read_cursor stores (messages consumed) *)
   f_thr : nat -> fthread;
 }.
 
 Definition finit (n : nat) (cap : Z) (wl : bool) (nreads : nat) (wk : nat -> nat) : fsys :=
-  {| f_n := n; f_cap := cap; f_wl := wl; f_wcur := 0; f_rcur := cap - 1; f_wm := None;
+  {| f_n := n; f_cap := cap; f_wl := wl; f_wcur := 0; f_rcur := cap - 1; f_wm := None; f_W := 0; f_R := 0;
      f_thr := fun t => match t with
-                       | O => {| f_pc := FRSeg; f_k := nreads; f_reg := 0; f_reg2 := 0; f_pend := [] |}
-                       | S w => {| f_pc := FWSeg; f_k := wk w; f_reg := 0; f_reg2 := 0; f_pend := [] |}
+                       | O => {| f_pc := FRSeg; f_k := nreads; f_reg := 0; f_reg2 := 0; f_pend := []; f_g := 0 |}
+                       | S w => {| f_pc := FWSeg; f_k := wk w; f_reg := 0; f_reg2 := 0; f_pend := []; f_g := 0 |}
                        end |}.
 
 Definition fset (s : fsys) (t : nat) (x : fthread) : fsys :=
   {| f_n := f_n s; f_cap := f_cap s; f_wl := f_wl s; f_wcur := f_wcur s; f_rcur := f_rcur s;
-     f_wm := f_wm s; f_thr := upd (f_thr s) t x |}.
+     f_wm := f_wm s; f_W := f_W s; f_R := f_R s; f_thr := upd (f_thr s) t x |}.
 Definition fpcset (x : fthread) (p : fpc) : fthread :=
-  {| f_pc := p; f_k := f_k x; f_reg := f_reg x; f_reg2 := f_reg2 x; f_pend := [] |}.
+  {| f_pc := p; f_k := f_k x; f_reg := f_reg x; f_reg2 := f_reg2 x; f_pend := []; f_g := f_g x |}.
 Definition f_blocked (s : fsys) (u : nat) : bool :=
   match f_pc (f_thr s u) with FRBlocked => true | _ => false end.
 
@@ -114,7 +117,7 @@ Definition fstep (s : fsys) (t : nat) (ch : nat) : option (fsys * label) :=
   (* ---- reader ---- *)
   | FRSeg => Some (go (match f_k x with O => FFin | S _ => FRLoad end), LPlain (f_pend x))
   | FRLoad =>
-    Some (fset s t {| f_pc := FRChk; f_k := f_k x; f_reg := f_wcur s; f_reg2 := f_reg2 x; f_pend := [] |},
+    Some (fset s t {| f_pc := FRChk; f_k := f_k x; f_reg := f_wcur s; f_reg2 := f_reg2 x; f_pend := []; f_g := f_W s |},
           ev OLoad fc_wcur Acq (f_wcur s) 0 0)
   | FRChk =>
     if f_reg x =? ridx (f_rcur s + 1) (f_cap s) then Some (go FRWait, LPlain [])
@@ -122,9 +125,9 @@ Definition fstep (s : fsys) (t : nat) (ch : nat) : option (fsys * label) :=
   | FRStore =>
     let rpos := ridx (f_rcur s + 1) (f_cap s) in
     Some ({| f_n := f_n s; f_cap := f_cap s; f_wl := f_wl s; f_wcur := f_wcur s; f_rcur := rpos;
-             f_wm := f_wm s;
+             f_wm := f_wm s; f_W := f_W s; f_R := f_R s + 1;
              f_thr := upd (f_thr s) t {| f_pc := FRSeg; f_k := pred (f_k x); f_reg := f_reg x;
-                                         f_reg2 := f_reg2 x; f_pend := [(n_read, 0)] |} |},
+                                         f_reg2 := f_reg2 x; f_pend := [(n_read, 0)]; f_g := f_g x |} |},
           ev OStore fc_rcur Rel rpos 0 0)
   | FRWait =>
     (* expected = the CHECKED value (the register loaded before the comparison) *)
@@ -147,12 +150,12 @@ Definition fstep (s : fsys) (t : nat) (ch : nat) : option (fsys * label) :=
     | Some _ => None
     | None =>
       Some ({| f_n := f_n s; f_cap := f_cap s; f_wl := f_wl s; f_wcur := f_wcur s; f_rcur := f_rcur s;
-               f_wm := Some t; f_thr := upd (f_thr s) t (fpcset x FWSeg1) |},
+               f_wm := Some t; f_W := f_W s; f_R := f_R s; f_thr := upd (f_thr s) t (fpcset x FWSeg1) |},
             ev OMlock fc_wm MoNone 0 0 0)
     end
   | FWSeg1 => Some (go FWLoadR, LPlain [])
   | FWLoadR =>
-    Some (fset s t {| f_pc := FWChk; f_k := f_k x; f_reg := f_rcur s; f_reg2 := f_reg2 x; f_pend := [] |},
+    Some (fset s t {| f_pc := FWChk; f_k := f_k x; f_reg := f_rcur s; f_reg2 := f_reg2 x; f_pend := []; f_g := f_R s |},
           ev OLoad fc_rcur Rlx (f_rcur s) 0 0)
   | FWChk =>
     let wpos := ridx (f_wcur s + 1) (f_cap s) in
@@ -160,26 +163,26 @@ Definition fstep (s : fsys) (t : nat) (ch : nat) : option (fsys * label) :=
       if f_wl s then Some (go FWUnlockF, LPlain [])
       else Some (go FWYield, LPlain [(n_full, 0)])
     else
-      Some (fset s t {| f_pc := FWStore; f_k := f_k x; f_reg := f_reg x; f_reg2 := wpos; f_pend := [] |}, LPlain [])
+      Some (fset s t {| f_pc := FWStore; f_k := f_k x; f_reg := f_reg x; f_reg2 := wpos; f_pend := []; f_g := f_g x |}, LPlain [])
   | FWStore =>
     Some ({| f_n := f_n s; f_cap := f_cap s; f_wl := f_wl s; f_wcur := f_reg2 x; f_rcur := f_rcur s;
-             f_wm := f_wm s; f_thr := upd (f_thr s) t (fpcset x FWSeg3) |},
+             f_wm := f_wm s; f_W := f_W s + 1; f_R := f_R s; f_thr := upd (f_thr s) t (fpcset x FWSeg3) |},
           ev OStore fc_wcur Rel (f_reg2 x) 0 0)
   | FWSeg3 => Some (go (if f_wl s then FWUnlock else FWWake), LPlain [])
   | FWUnlock =>
     Some ({| f_n := f_n s; f_cap := f_cap s; f_wl := f_wl s; f_wcur := f_wcur s; f_rcur := f_rcur s;
-             f_wm := None; f_thr := upd (f_thr s) t (fpcset x FWSeg4) |},
+             f_wm := None; f_W := f_W s; f_R := f_R s; f_thr := upd (f_thr s) t (fpcset x FWSeg4) |},
           ev OMunlock fc_wm MoNone 0 0 0)
   | FWSeg4 => Some (go FWWake, LPlain [])
   | FWWake =>
     let x1 := {| f_pc := FWSeg; f_k := pred (f_k x); f_reg := f_reg x; f_reg2 := f_reg2 x;
-                 f_pend := [(n_wrote, 0)] |} in
+                 f_pend := [(n_wrote, 0)]; f_g := f_g x |} in
     let w := first_such (f_blocked s) (f_n s) in
     let s1 := match w with Some u => fset s u (fpcset (f_thr s u) FRSeg) | None => s end in
     Some (fset s1 t x1, ev OFwake fc_wcur MoNone 1 (zcount w) 0)
   | FWUnlockF =>
     Some ({| f_n := f_n s; f_cap := f_cap s; f_wl := f_wl s; f_wcur := f_wcur s; f_rcur := f_rcur s;
-             f_wm := None; f_thr := upd (f_thr s) t (fpcset x FWSegF) |},
+             f_wm := None; f_W := f_W s; f_R := f_R s; f_thr := upd (f_thr s) t (fpcset x FWSegF) |},
           ev OMunlock fc_wm MoNone 0 0 0)
   | FWSegF => Some (go FWYield, LPlain [(n_full, 0)])
   | FWYield => Some (go FWSeg, ev OYield 0%nat MoNone 0 0 0)
